@@ -11,6 +11,7 @@ import (
 	"github.com/hashicorp/consul/api"
 	"github.com/hashicorp/consul/internal/verifmc/cmdlib"
 	"github.com/hashicorp/consul/internal/verifmc/e1"
+	"github.com/hashicorp/consul/internal/verifmc/ep"
 	"github.com/hashicorp/consul/internal/verifmc/ev"
 	"github.com/hashicorp/consul/internal/verifmc/world"
 )
@@ -257,6 +258,7 @@ func compareEndpoint(u universe, m *Model, w *world.World) (string, string, int)
 	if err != nil {
 		return "harness", err.Error(), 0
 	}
+	defer ep.Close()
 	n := 0
 	for _, k := range u.keys {
 		r, err := ep.Get(k)
@@ -398,6 +400,8 @@ func Run(c *ev.Ctx) {
 		}
 		alpha = append(alpha, txn(mpart{kv: &k}))
 	}
+	txnSinglesEnd := len(alpha)
+	viaRPC := 0
 	kv := func(verb api.KVOp, key, val, sess string, ic cmdlib.IdxClass, useIdx bool) mpart {
 		return mpart{kv: &cmdlib.KVSpec{Verb: verb, Key: key, Val: val, Sess: sess, Idx: ic, UseIdx: useIdx}}
 	}
@@ -424,6 +428,35 @@ func Run(c *ev.Ctx) {
 		txn(mpart{sessDel: "s2"}),
 		txn(kv(api.KVLock, "ab", "x", "s1", 0, false), mpart{sessDel: "s1"}),
 	)
+
+	// the same writes as a client sends them: through KVS.Apply and Txn.Apply. KVS.Apply's boolean is only
+	// meaningful for the conditional verbs (the HTTP layer ignores it for the others).
+	kvNorm := func(t structs.MessageType, req any, r ep.Result) string {
+		if a, ok := req.(*structs.KVSRequest); ok && r.Err == nil {
+			switch a.Op {
+			case api.KVSet, api.KVDelete, api.KVDeleteTree:
+				return "nil"
+			}
+		}
+		return r.Norm
+	}
+	nDirect := len(specs)
+	for i, op := range append([]world.Op(nil), alpha...) {
+		isDirect := i < nDirect
+		isHandTxn := strings.HasPrefix(op.Name, "txn[") && i >= txnSinglesEnd
+		if op.Name == `txn[kv.get-tree("")]` {
+			// KVS.Apply / Txn.Apply refuse an empty key for every verb but delete-tree ("Must provide key")
+			// before anything is read or written; that request validation is not part of the map semantics
+			continue
+		}
+		if isDirect || isHandTxn {
+			if quick && isDirect && (specs[i].Key == "é" || specs[i].Flags != 0) {
+				continue
+			}
+			alpha = append(alpha, ep.Via(op, kvNorm))
+			viaRPC++
+		}
+	}
 
 	regN1 := passive(cmdlib.RegNode(n1))
 	lockA := direct(cmdlib.KVSpec{Verb: api.KVLock, Key: "a", Val: "x", Sess: "s1"})
@@ -476,6 +509,7 @@ func Run(c *ev.Ctx) {
 	c.Set("seeds", len(seeds))
 	c.Set("keys", u.keys)
 	c.Set("endpoint_reads", atomic.LoadInt64(&endpointReads))
+	c.Set("alphabet_members_sent_through_rpc_endpoints", viaRPC)
 	c.Set("endpoint_separators", separators)
 	c.Set("rule", "every op sequence up to max_depth from each seed over the alphabet; states deduplicated on the rank-compressed 36-table dump; each transition compared with the reference map (result, store get for every key, store list for every prefix, and the RPC endpoints KVS.Get / KVS.List / KVS.ListKeys for every key, prefix and separator, run on a Server object holding this state)")
 	c.Sample(map[string]any{"seed0": names(seeds[1]), "alphabet_excerpt": names(alpha[:8]), "txn_excerpt": names(alpha[len(alpha)-5:])})
